@@ -118,6 +118,10 @@ def _angle_between(r1, r2):
     return (r1 * r2.inv()).magnitude()
 
 
+def is_parquet_fmt(fmt, seen):
+    return bool(seen) if seen is not None else fmt in (".pq", ".parquet")
+
+
 def run_case(inp):
     from acryo import Molecules
     viols = []
@@ -127,6 +131,26 @@ def run_case(inp):
 
     m = _table(inp)
     n = len(m)
+    if inp.get("forder"):
+        # positions held as a Fortran-ordered (transposed-in-memory) array: same values, other memory layout
+        m = Molecules(np.asfortranarray(m.pos), m.rotator, features=m.features)
+    src = m
+    for _cycle in range(int(inp.get("cycles", 1)) - 1):
+        # earlier save / load cycles: what is saved next is a table that was itself read from a file / frame
+        with tempfile.TemporaryDirectory(dir=C.RUN_ROOT if os.path.isdir(C.RUN_ROOT) else None) as d0:
+            try:
+                if inp["format"] == "df":
+                    m = Molecules.from_dataframe(m.to_dataframe())
+                else:
+                    p0 = os.path.join(d0, "cycle" + inp["format"])
+                    if inp.get("precision") is not None and inp["format"].lower() not in (".pq", ".parquet"):
+                        m.to_csv(p0, float_precision=inp["precision"])
+                    else:
+                        m.to_file(p0)
+                    m = Molecules.from_file(p0)
+            except Exception as e:  # noqa: BLE001
+                V("no-error", f"save/load cycle: {type(e).__name__}: {str(e)[:150]}")
+                return viols
     with tempfile.TemporaryDirectory(dir=C.RUN_ROOT if os.path.isdir(C.RUN_ROOT) else None) as d:
         fmt = inp["format"]
         try:
@@ -143,7 +167,7 @@ def run_case(inp):
                 with open(path, "rb") as fh:
                     head = fh.read(4)
                 is_parquet = head == b"PAR1"
-                if is_parquet != (fmt in (".pq", ".parquet")):
+                if fmt == fmt.lower() and is_parquet != (fmt in (".pq", ".parquet")):
                     V("dispatch", f"suffix {fmt!r} written as {'Parquet' if is_parquet else 'CSV'}")
                 back = Molecules.from_file(path)
                 import polars as pl
@@ -151,13 +175,14 @@ def run_case(inp):
         except Exception as e:  # noqa: BLE001
             V("no-error", f"{type(e).__name__}: {str(e)[:150]}")
             return viols
+    m = src            # compare with the table that was first written
     want_cols = _CSV + list(m.features.columns)
     if list(cols) != want_cols:
         V("layout", f"columns {list(cols)} != {want_cols}")
     if len(back) != n:
         V("count", f"{len(back)} molecules read back, {n} written")
         return viols
-    csv = fmt not in ("df", ".pq", ".parquet")
+    csv = not (fmt == "df" or is_parquet_fmt(fmt, locals().get("is_parquet")))
     prec = inp.get("precision") if inp.get("precision") is not None else 4
     ptol = 0.5 * 10.0 ** (-prec) * 1.001 + 1e-6 * inp["pos_scale"] if csv else 0.0
     dp = np.abs(back.pos.astype(np.float64) - m.pos.astype(np.float64)).max(initial=0)
@@ -201,6 +226,18 @@ def oracle(rng, thorough, deep=False, hints=None):
                           precision=[None, 2, 5, 7, 9, 12][(it // 2) % 6] if fmt in (".csv", ".txt") else None,
                           history=[[], ["materialise", "rotate_inplace"], ["head", "translate_inplace"],
                                    ["materialise", "append"], ["materialise", "rotate_inplace", "translate_inplace"]][it % 5]))
+    # suffixes in other spellings (writer and reader must still agree), repeated save/load cycles, three
+    # molecules (a square position array), Fortran-ordered positions
+    odd = [".PQ", ".Parquet", ".CSV", ".TXT", ".dat", ""]
+    for it in range(12 if big else 6):
+        fmt = odd[it % len(odd)]
+        cases.append(dict(n=int([3, 1, 4, 3, 25, 3][it % 6]), seed=int(rng.integers(0, 10 ** 6)), format=fmt, angles="generic",
+                          neg_axis=False, pos_scale=100.0, features=bool(it % 2), precision=None, history=[], cycles=1 + it % 2))
+    for it in range(10 if big else 5):
+        fmt = fmts[it % len(fmts)]
+        cases.append(dict(n=int([3, 3, 2, 3, 7][it % 5]), seed=int(rng.integers(0, 10 ** 6)), format=fmt, angles="generic",
+                          neg_axis=False, pos_scale=100.0, features=bool(it % 3), history=[["head"], [], ["materialise"]][it % 3],
+                          precision=9 if fmt in (".csv", ".txt") else None, cycles=[2, 3][it % 2], forder=bool(it % 2)))
     viols, stats = [], {"by_format": {}, "samples": [{"oracle_case": c} for c in cases[:2]]}
     for c in cases:
         stats["by_format"][c["format"]] = stats["by_format"].get(c["format"], 0) + 1
